@@ -86,7 +86,52 @@ pub struct Shape {
     pub struct_vis: Vis,
     pub remote: bool,
     pub nested: bool,
+    /// 0 = fields are called x0, x1, ...; 1 = fields carry names that also occur as local variables or
+    /// struct fields inside the code the derive generates (normalized_time, frame_index, target, ...)
+    #[serde(default)]
+    pub names: u8,
     pub sets: Vec<KfSet>,
+}
+
+const HOSTILE: [&str; 12] = ["normalized_time", "frame_index", "time", "position", "values", "enable_start_override", "timescale", "boundary_times", "data", "value", "index", "keyframe"];
+
+/// the field name used in generated source for field k of a shape
+fn fname(names: u8, k: usize) -> String {
+    if names == 0 {
+        format!("x{k}")
+    } else if k < HOSTILE.len() {
+        HOSTILE[k].to_string()
+    } else {
+        format!("{}_{}", HOSTILE[k % HOSTILE.len()], k / HOSTILE.len())
+    }
+}
+
+/// renames x<k> -> fname(k) in a chunk of generated source
+fn rename_fields(chunk: &str, names: u8) -> String {
+    if names == 0 {
+        return chunk.to_string();
+    }
+    let b = chunk.as_bytes();
+    let mut out = String::with_capacity(chunk.len() + 64);
+    let mut i = 0;
+    while i < b.len() {
+        let word_before = i > 0 && (b[i - 1].is_ascii_alphanumeric() || b[i - 1] == b'_');
+        if b[i] == b'x' && !word_before && i + 1 < b.len() && b[i + 1].is_ascii_digit() {
+            let mut j = i + 1;
+            while j < b.len() && b[j].is_ascii_digit() {
+                j += 1;
+            }
+            let word_after = j < b.len() && (b[j].is_ascii_alphanumeric() || b[j] == b'_');
+            if !word_after {
+                out += &fname(names, chunk[i + 1..j].parse::<usize>().unwrap());
+                i = j;
+                continue;
+            }
+        }
+        out.push(b[i] as char);
+        i += 1;
+    }
+    out
 }
 
 impl Shape {
@@ -118,7 +163,7 @@ fn ez17() -> impl Strategy<Value = Ez> {
 fn shape_strategy() -> impl Strategy<Value = Shape> {
     let field = (prop::sample::select(vec![Ty::F32, Ty::F64, Ty::U8, Ty::I16, Ty::I32, Ty::U32]), any::<bool>(), prop::sample::select(vec![Vis::Priv, Vis::Pub, Vis::PubCrate]), prop::bool::weighted(0.2))
         .prop_map(|(ty, marked, vis, decorated)| Field { ty, marked, vis, decorated });
-    (prop::collection::vec(field, 1..=6), prop::sample::select(vec![Vis::Priv, Vis::Pub, Vis::PubCrate]), prop::bool::weighted(0.3), any::<bool>(), prop::bool::weighted(0.15)).prop_flat_map(|(mut fields, struct_vis, remote, nested, none_marked)| {
+    (prop_oneof![40 => prop::collection::vec(field.clone(), 1..=6), 1 => prop::collection::vec(field.clone(), 33..=36), 1 => prop::collection::vec(field, 65..=68)], prop::sample::select(vec![Vis::Priv, Vis::Pub, Vis::PubCrate]), prop::bool::weighted(0.3), any::<bool>(), prop::bool::weighted(0.15), prop_oneof![3 => Just(0u8), 1 => Just(1u8)]).prop_flat_map(|(mut fields, struct_vis, remote, nested, none_marked, names)| {
         if none_marked {
             for f in &mut fields {
                 f.marked = false;
@@ -130,7 +175,7 @@ fn shape_strategy() -> impl Strategy<Value = Shape> {
                 f.decorated = false;
             }
         }
-        let shape0 = Shape { fields: fields.clone(), struct_vis, remote, nested, sets: vec![] };
+        let shape0 = Shape { fields: fields.clone(), struct_vis, remote, nested, names, sets: vec![] };
         let anim = shape0.animated();
         let tys: Vec<Ty> = fields.iter().map(|f| f.ty).collect();
         let anim_tys: Vec<Ty> = anim.iter().map(|i| tys[*i]).collect();
@@ -204,6 +249,7 @@ fn program(shapes: &[Shape]) -> String {
     );
     for (i, sh) in shapes.iter().enumerate() {
         let anim = sh.animated();
+        let chunk_start = src.len();
         src += &format!("mod shape_{i} {{\n    use mina::prelude::*;\n    use serde_json::{{json, Value}};\n    use super::{{rep, ez, rep_out}};\n");
         src += &shape_defs(sh, i);
         // target construction with sentinels
@@ -241,6 +287,9 @@ fn program(shapes: &[Shape]) -> String {
             src += &format!("            explicit = explicit.x{fi}(v.x{fi});\n");
         }
         src += &format!("            let t2 = TimelineBuilder::build(S{i}::timeline().duration_seconds(1.0).keyframe(explicit));\n            let mut kf_obs = vec![];\n            for q in [0.0f32, 0.25, 0.5, 0.75, 1.0, p] {{\n                let (mut a, mut b2) = (fresh(), fresh());\n                t1.update(&mut a, q);\n                t2.update(&mut b2, q);\n                kf_obs.push(json!([q, dump(&a), dump(&b2)]));\n            }}\n            out.push(json!({{\"meta\": meta, \"obs\": obs, \"kf_from\": kf_obs}}));\n        }}\n        json!(out)\n    }}\n}}\n\n");
+        let renamed = rename_fields(&src[chunk_start..], sh.names);
+        src.truncate(chunk_start);
+        src += &renamed;
     }
     src += "fn main() {\n    let data: Value = serde_json::from_str(&std::fs::read_to_string(std::env::args().nth(1).unwrap()).unwrap()).unwrap();\n";
     for i in 0..shapes.len() {
@@ -259,6 +308,7 @@ fn neg_program(shapes: &[Shape]) -> (String, Vec<(u32, usize, usize)>) {
         if non.is_empty() {
             continue;
         }
+        let chunk_start = src.len();
         src += &format!("mod shape_{i} {{\n    use mina::prelude::*;\n");
         src += &shape_defs(sh, i);
         for k in non {
@@ -267,6 +317,9 @@ fn neg_program(shapes: &[Shape]) -> (String, Vec<(u32, usize, usize)>) {
             probes.push((line, i, k));
         }
         src += "}\n";
+        let renamed = rename_fields(&src[chunk_start..], sh.names);
+        src.truncate(chunk_start);
+        src += &renamed;
     }
     src += "\nfn main() {}\n";
     (src, probes)
@@ -579,6 +632,15 @@ pub fn c17(run: &mut Run) {
             if sh.remote {
                 bump("remote");
             }
+            if sh.names != 0 {
+                bump("field_names_that_occur_in_generated_code");
+            }
+            if sh.fields.len() > 32 {
+                bump("more_than_32_fields");
+            }
+            if sh.fields.len() > 64 {
+                bump("more_than_64_fields");
+            }
             if sh.animated().len() < sh.fields.len() {
                 bump("mixed_animated_and_not");
             }
@@ -620,7 +682,7 @@ pub fn c17(run: &mut Run) {
     run.external(
         "c17_shapes",
         "generated programs (derive output vs dynamic reference model + negative setter probes)",
-        "proptest-generated struct shapes (see assumptions) each with 4 keyframe sets x 12 times: the compiled derive output is evaluated and judged against the dynamic f64 model (C01 oracle) on the (remote) target type; non-animated fields keep sentinels; keyframe_from == keyframe with exactly the animated fields; delay/cycle/duration/repeat accessors return what the builder was given; a probe file calls a setter named after every NON-animated field and every such line must fail to compile; non-trivial = shape mixes animated and non-animated fields or is remote or has >= 3 field types; distinct = hash of the shape",
+        "proptest-generated struct shapes (see assumptions; 1-6 fields, occasionally 33-36 or 65-68; a quarter with field names that also occur as identifiers inside the generated code) each with 4 keyframe sets x 12 times: the compiled derive output is evaluated and judged against the dynamic f64 model (C01 oracle) on the (remote) target type; non-animated fields keep sentinels; keyframe_from == keyframe with exactly the animated fields; delay/cycle/duration/repeat accessors return what the builder was given; a probe file calls a setter named after every NON-animated field and every such line must fail to compile; non-trivial = shape mixes animated and non-animated fields or is remote or has >= 3 field types; distinct = hash of the shape",
         total,
         nontriv.len() as u64,
         samples,
